@@ -303,6 +303,11 @@ cdef class _BlochRedfieldElement(_BaseElement):
     def linear_map(self, f, anti=False):
         return _MapElement(self, [f])
 
+    def _dtype_name(self):
+        return {SPARSE: 'sparse', DENSE: 'dense', DATA: 'data'}[
+            self.tensortype
+        ]
+
     def replace_arguments(self, args, cache=None):
         if cache is None:
             return _BlochRedfieldElement(
@@ -310,7 +315,9 @@ cdef class _BlochRedfieldElement(_BaseElement):
                                      type(self.H.oper) is CSR),
                 QobjEvo(self.a_op, args=args),
                 self.spectra,
-                self.sec_cutoff
+                self.sec_cutoff,
+                self.eig_basis,
+                self._dtype_name()
             )
         H = None
         for old, new in cache:
@@ -323,7 +330,8 @@ cdef class _BlochRedfieldElement(_BaseElement):
                                      type(self.H.oper) is CSR)
         new = _BlochRedfieldElement(
             H, QobjEvo(self.a_op, args=args),
-            self.spectra.replace_arguments(**args), self.sec_cutoff
+            self.spectra.replace_arguments(**args), self.sec_cutoff,
+            self.eig_basis, self._dtype_name()
         )
         cache.append((self, new))
         cache.append((self.H, H))
@@ -592,7 +600,7 @@ cdef class _BlochRedfieldCrossElement(_BlochRedfieldElement):
         if not self.eig_basis and out is not None:
             out = self.H.to_eigbasis(t, out)
         A_eig = self.H.to_eigbasis(t, self.a_op._call(t))
-        B_eig = self.H.to_eigbasis(t, self.a_op._call(t))
+        B_eig = self.H.to_eigbasis(t, self.b_op._call(t))
         BR_eig = self._br_cterm(A_eig, B_eig, cutoff)
         out = _data.add(_data.matmul(BR_eig, state), out)
         if not self.eig_basis:
@@ -607,7 +615,9 @@ cdef class _BlochRedfieldCrossElement(_BlochRedfieldElement):
                 QobjEvo(self.a_op, args=args),
                 QobjEvo(self.b_op, args=args),
                 self.spectra,
-                self.sec_cutoff
+                self.sec_cutoff,
+                self.eig_basis,
+                self._dtype_name()
             )
 
         H = None
@@ -619,9 +629,10 @@ cdef class _BlochRedfieldCrossElement(_BlochRedfieldElement):
         if H is None:
             H = _EigenBasisTransform(QobjEvo(self.H.oper, args=args),
                                      type(self.H.oper) is CSR)
-        new = _BlochRedfieldElement(
+        new = _BlochRedfieldCrossElement(
             H, QobjEvo(self.a_op, args=args), QobjEvo(self.b_op, args=args),
-            self.spectra.replace_arguments(**args), self.sec_cutoff
+            self.spectra.replace_arguments(**args), self.sec_cutoff,
+            self.eig_basis, self._dtype_name()
         )
         cache.append((self, new))
         cache.append((self.H, H))
